@@ -42,6 +42,8 @@ PresentLeaves == {m \in ModeLeaves : m.bad \in {"ro_present", "wo_present"}}
 ModeGoods(ms, Obj(_)) == {[rule |-> "none", var |-> m.ok, obj |-> Obj(m), comps |-> <<>>] : m \in ms}
 ModeBads(ms, Obj(_)) == {[rule |-> "example_mismatch", var |-> m.bad, obj |-> Obj(m), comps |-> <<>>] : m \in ms}
 MtWith(m) == OO(<< <<"schema", m.sch>>, <<"example", m.val>> >>)
+MtWithMap(m) == OO(<< <<"schema", m.sch>>, <<"examples", OO(<< <<"e", OO(<< <<"value", m.val>> >>)>> >>)>> >>)
+MapLeaves == {[m EXCEPT !.bad = "map_" \o m.bad, !.ok = "map_" \o m.ok] : m \in PresentLeaves}
 SchWith(m) == With(m.sch, << <<"example", m.val>> >>)
 ParamWith(m) == OO(<< <<"name", S("q")>>, <<"in", S("query")>>, <<"schema", m.sch>>, <<"example", m.val>> >>)
 WoPresent == CHOOSE m \in ModeLeaves : m.bad = "wo_present"
@@ -118,6 +120,9 @@ DistinctLists == {[var |-> "refs_distinct",  ps |-> <<PRef(cNameR), PRef(cNameR1
                   [var |-> "ref_other_in",   ps |-> <<PRef(cNameR), OO(<< <<"name", S("q")>>, <<"in", S("header")>>, <<"schema", TString>> >>)>>,
                                              comps |-> <<PComp(cNameR, ParamQ)>>]}
 MtMin == Min("mediaType")
+MapModeGoods == {[rule |-> "none", var |-> m.ok, obj |-> MtWithMap(m), comps |-> <<>>] : m \in MapLeaves}
+MapModeBads == {[rule |-> "examples_mismatch", var |-> m.bad, obj |-> MtWithMap(m), comps |-> <<>>] : m \in MapLeaves}
+WoLeaves == {m \in ModeLeaves : m.bad \in {"wo_present", "wo_absent"}}
 Content1 == OO(<< <<"application/json", MtMin>> >>)
 Content2 == OO(<< <<"application/json", MtMin>>, <<"text/plain", MtMin>> >>)
 ParamContent == OO(<< <<"name", S("q")>>, <<"in", S("query")>>, <<"content", OO(<< <<"application/json", MtMin>> >>)>> >>)
@@ -216,6 +221,7 @@ Goods0(kind) ==
            G("path_matrix", With(PathParam("id"), << <<"style", S("matrix")>> >>)),
            G("path_matrix_explode", With(PathParam("id"), << <<"style", S("matrix")>>, <<"explode", B(TRUE)>> >>)),
            G("path_simple_explode", With(PathParam("id"), << <<"explode", B(TRUE)>> >>))}
+          \cup ModeGoods(WoLeaves, ParamWith)
      [] kind = "header" ->
           {G("explode", With(Min("header"), << <<"style", S("simple")>>, <<"explode", B(TRUE)>> >>)),
            G("content", OO(<< <<"content", Content1>> >>)),
@@ -231,7 +237,7 @@ Goods0(kind) ==
      [] kind = "response" -> {G("empty_description", OO(<< <<sDescr, S("")>> >>)),
                               G("full", With(RespD, << <<"headers", OO(<< <<"H", Min("header")>> >>)>>,
                                      <<"content", Content1>>, <<"links", OO(<< <<"L", Min("link")>> >>)>> >>))}
-     [] kind = "mediaType" -> ModeGoods(ModeLeaves, MtWith) \cup
+     [] kind = "mediaType" -> ModeGoods(ModeLeaves, MtWith) \cup MapModeGoods \cup
                               {G("example_no_schema", OO(<< <<"example", N(1)>> >>)),
                                G("examples_no_schema", OO(<< <<"examples", ExOK>> >>)),
                                G("empty", EmptyO), G("example", With(MtMin, << <<"example", S("x")>> >>)),
@@ -374,6 +380,7 @@ Bads0(kind) ==
            Bd("example_and_examples", "both_with_content", With(ParamContent, << <<"example", S("x")>>, <<"examples", ExOK>> >>)),
            Bd("path_not_required", "path_not_required", Drop(PathParam("id"), {"required"})),
            Bd("path_not_required", "path_required_false", Set(PathParam("id"), "required", B(FALSE)))}
+          \cup ModeBads(WoLeaves, ParamWith)
      [] kind = "header" ->
           {Bd("header_has_name", "name", With(Min("header"), << <<"name", S("n")>> >>)),
            Bd("header_has_in", "in", With(Min("header"), << <<"in", S("header")>> >>)),
@@ -389,7 +396,7 @@ Bads0(kind) ==
      [] kind = "requestBody" -> {Bd("content_missing", "absent", OO(<< <<sDescr, S("d")>> >>))}
      [] kind = "response" -> {Bd("description_missing", "absent", OO(<< <<"content", Content1>> >>))}
      [] kind = "mediaType" ->
-          ModeBads(ModeLeaves, MtWith) \cup
+          ModeBads(ModeLeaves, MtWith) \cup MapModeBads \cup
           {Bd("example_and_examples", "both_no_schema", OO(<< <<"example", S("x")>>, <<"examples", ExOK>> >>)),
            Bd("example_and_examples", "both", With(MtMin, << <<"example", S("x")>>, <<"examples", ExOK>> >>)),
            Bd("example_mismatch", "number", With(MtMin, << <<"example", N(1)>> >>)),
@@ -484,6 +491,7 @@ MapKeys(kind, f) ==
 EmbedBase(kind, f) ==
    CASE kind \in {"parameter", "header"} /\ f = "content" -> Drop(Min(kind), {"schema"})
      [] kind = "server" /\ f = "variables" -> OO(<< <<"url", S(Join(cUrlVar))>> >>)
+     [] kind = "pathItem" /\ f = "parameters" -> OO(<< <<"get", Min("operation")>> >>)     \* parameters common to an operation
      [] kind = "schema" /\ f = "items" -> OO(<< <<"type", S("array")>> >>)
      [] kind = "schema" /\ f \in {"properties", "additionalProperties", "discriminator", "xml"} -> OO(<< <<"type", S("object")>> >>)
      [] kind = "schema" /\ f \in {"allOf", "oneOf", "anyOf", "not"} -> EmptyO
